@@ -51,6 +51,7 @@ class Model:
         self.granted = []                    # ids in grant order
         self.got = {}                        # get id -> item
         self.preempted = []                  # (victim id, by id)
+        self.preempt_since = []              # (victim id, time at which the victim had been granted the resource)
         self.n = 0
         self.t = 0
 
@@ -84,6 +85,7 @@ class Model:
                     if self.key(r) < self.key(worst):
                         self.users.remove(worst)
                         self.preempted.append((worst['id'], r['id']))
+                        self.preempt_since.append((worst['id'], worst['since']))
                         if worst.get('hold') == 2:
                             # the evicted process asks again from its interrupt handler
                             again = dict(id=100 + worst['id'], time=self.t, prio=worst['prio'], preempt=True, hold=1)
@@ -92,6 +94,7 @@ class Model:
                 ok = len(self.users) < self.cap
                 if ok:
                     self.users.append(r)
+                    r['since'] = self.t
             if not ok:
                 break
             self.puts.pop(0)
@@ -166,6 +169,17 @@ class Model:
                 if r['id'] == op[1]:
                     self.users.remove(r)
             self.pending_triggers.append('put')
+        elif k == 'interrupt':
+            # the process is interrupted inside its `with request:` block and leaves it with the exception:
+            # a pending request is withdrawn (like cancel), a granted one is given back (like release)
+            for q in (self.puts, self.gets):
+                for r in list(q):
+                    if r['id'] == op[1]:
+                        q.remove(r)
+            for r in list(self.users):
+                if r['id'] == op[1]:
+                    self.users.remove(r)
+                    self.pending_triggers.append('put')
         self.drain()
 
     def tick(self):
@@ -217,6 +231,8 @@ class Model:
             ops.append(('cancel', r['id']))
         for r in self.users:
             ops.append(('release', r['id']))
+        for r in self.puts + self.gets + self.users:
+            ops.append(('interrupt', r['id']))
         return ops
 
 
@@ -251,9 +267,17 @@ def run_real(kind, params, steps):
 
     def waiter(i, ev):
         try:
-            value = yield ev
-            grants.append(i)
-            got[i] = value
+            with ev:
+                value = yield ev
+                grants.append(i)
+                got[i] = value
+        except Interrupt as irq:
+            if irq.cause != 'leave':
+                errors.append('request %d interrupted with %r' % (i, irq.cause))
+            if ev.triggered and i not in grants:
+                # served in the very time step in which the process was told to leave: the transfer has happened
+                grants.append(i)
+                got[i] = ev.value
         except BaseException as e:      # noqa
             errors.append('request %d failed with %r' % (i, e))
 
@@ -276,15 +300,16 @@ def run_real(kind, params, steps):
             cause = irq.cause
             if isinstance(cause, Preempted):
                 preempted.append((i, ids_of_proc.get(cause.by), cause.usage_since, cause.resource is res))
-            else:
+            elif cause != 'leave':
                 errors.append('request %d interrupted with %r' % (i, cause))
-            if hold == 2:
+            if hold == 2 and isinstance(cause, Preempted):
                 # ask again from the interrupt handler
                 j = 100 + i
                 req2 = res.request(priority=prio)
                 evs[j] = req2
                 release[j] = env.event()
                 ids_of_proc[req2.proc] = ids_of_proc.get(req2.proc, i)
+                procs[j] = procs[i]
                 try:
                     with req2:
                         yield req2
@@ -293,8 +318,11 @@ def run_real(kind, params, steps):
                 except Interrupt as irq2:
                     if isinstance(irq2.cause, Preempted):
                         preempted.append((j, ids_of_proc.get(irq2.cause.by), irq2.cause.usage_since, irq2.cause.resource is res))
+                    elif irq2.cause != 'leave':
+                        errors.append('request %d interrupted with %r' % (j, irq2.cause))
 
     ids_of_proc = {}
+    procs = {}
 
     def issue(op):
         k = op[0]
@@ -312,14 +340,22 @@ def run_real(kind, params, steps):
                     ev = res.get()
                 evs[i] = ev
                 yield from waiter(i, ev)
-            env.process(proc())
+            procs[i] = env.process(proc())
         elif k == 'request':
             i = counter[0]; counter[0] += 1
             p = env.process(user(i, op[1], op[2], op[3]))
             ids_of_proc[p] = i
+            procs[i] = p
         elif k == 'cancel':
             def proc():
                 evs[op[1]].cancel()
+                return
+                yield
+            env.process(proc())
+        elif k == 'interrupt':
+            def proc():
+                if procs[op[1]].is_alive:
+                    procs[op[1]].interrupt('leave')
                 return
                 yield
             env.process(proc())
@@ -403,7 +439,7 @@ def amounts(steps):
 def conservation(kind, params, snap, steps):
     msgs = []
     ops = amounts(steps)
-    cancelled = any(op[0] == 'cancel' for g in steps for op in g)
+    cancelled = any(op[0] in ('cancel', 'interrupt') for g in steps for op in g)
     if kind == 'container':
         lvl = params.get('init', 0)
         for i in snap['granted']:
@@ -446,9 +482,13 @@ def compare(kind, model, snap):
         if got != val:
             msgs.append('%s is %r, the reference model says %r' % (key, got, val))
     if kind == 'preempt':
+        since = dict(model.preempt_since)
         for victim, usage_since, same in snap.get('preempt_details', ()):
             if not same:
                 msgs.append('Preempted.resource is not the resource')
+            if victim in since and usage_since != since[victim]:
+                msgs.append('request %r was preempted with usage_since=%r but it had been granted the resource at %r' % (
+                    victim, usage_since, since[victim]))
     return msgs
 
 
@@ -493,8 +533,8 @@ def search(tname, depth, pairs, first=None, pair_depth=2):
                     msgs.append('the driver did not finish: %d of %d steps' % (len(snaps), len(steps)))
                 else:
                     snap = snaps[-1]
-                    msgs += compare(kind, mm, snap) + invariants(kind, params, snap, any(o[0] == 'cancel' for g in steps for o in g)) + conservation(kind, params, snap, steps)
-                if mm.puts or mm.gets or mm.preempted or op[0] in ('cancel',):
+                    msgs += compare(kind, mm, snap) + invariants(kind, params, snap, any(o[0] in ('cancel', 'interrupt') for g in steps for o in g)) + conservation(kind, params, snap, steps)
+                if mm.puts or mm.gets or mm.preempted or op[0] in ('cancel', 'interrupt'):
                     nontrivial += 1
                 if msgs:
                     viol.append({'faults': {'type': tname, 'steps': steps}, 'msgs': msgs})
@@ -509,8 +549,8 @@ def search(tname, depth, pairs, first=None, pair_depth=2):
             # every ordered pair of operations within one time step, from this reachable state: invariants only
             issuing = [o for o in ops]
             for a, b in itertools.product(issuing, issuing):
-                if a[0] in ('cancel', 'release') and a == b:
-                    continue
+                if a[0] in ('cancel', 'release', 'interrupt') and b[0] in ('cancel', 'release', 'interrupt') and a[1] == b[1]:
+                    continue        # the same request is withdrawn twice
                 steps = hist + [[a, b]] + [[]]
                 snaps, outcome, _ = run_real(kind, params, steps)
                 pair_runs += 1
@@ -520,7 +560,7 @@ def search(tname, depth, pairs, first=None, pair_depth=2):
                     msgs.append('env.run raised %r' % (outcome,))
                 elif len(snaps) == len(steps):
                     for snap in snaps[-2:]:
-                        msgs += invariants(kind, params, snap, any(o[0] == 'cancel' for g in steps for o in g)) + conservation(kind, params, snap, steps)
+                        msgs += invariants(kind, params, snap, any(o[0] in ('cancel', 'interrupt') for g in steps for o in g)) + conservation(kind, params, snap, steps)
                 else:
                     msgs.append('the driver did not finish')
                 if msgs:
@@ -566,5 +606,5 @@ def replay(case, faults):
     if single:
         msgs += compare(kind, m, snaps[-1])
     for snap in snaps[-2:]:
-        msgs += invariants(kind, params, snap, any(o[0] == 'cancel' for g in steps for o in g)) + conservation(kind, params, snap, steps)
+        msgs += invariants(kind, params, snap, any(o[0] in ('cancel', 'interrupt') for g in steps for o in g)) + conservation(kind, params, snap, steps)
     return msgs
